@@ -22,11 +22,29 @@ def unmarshalOneofKinds : List String := ["bool", "int32", "int64", "uint32", "u
 /-- kinds with an arm in the if/else chain of `UnmarshalNumber` -/
 def unmarshalNumberKinds : List String := ["bool", "int32", "int64", "uint32", "uint64", "enum", "fixed32", "fixed64", "sint32", "sint64", "float", "double", "double"]
 
+/-- kinds with an arm in `SizeOfExtension` (singular and repeated chains) -/
+def sizeExtensionKinds : List String := ["bool", "fixed32", "sfixed32", "float", "fixed64", "sfixed64", "double", "int32", "int64", "uint32", "uint64", "enum", "sint32", "sint64", "string", "bytes", "message", "bool", "fixed32", "sfixed32", "float", "fixed64", "sfixed64", "double", "int32", "int64", "uint32", "uint64", "enum", "sint32", "sint64", "string", "bytes", "message"]
+
+/-- kinds with an arm in `MarshalExtension` (singular and repeated chains) -/
+def marshalExtensionKinds : List String := ["bool", "int32", "int64", "uint32", "uint64", "sint32", "sint64", "fixed32", "float", "fixed64", "double", "sfixed32", "sfixed64", "enum", "string", "bytes", "message", "bool", "int32", "int64", "uint32", "uint64", "sint32", "sint64", "fixed32", "float", "fixed64", "double", "sfixed32", "sfixed64", "enum", "string", "bytes", "message"]
+
+/-- kinds with an arm in `UnmarshalExtension` (singular) -/
+def unmarshalExtensionKinds : List String := ["message", "bool", "int32", "int64", "uint32", "uint64", "sint32", "sint64", "enum", "fixed32", "sfixed32", "float", "fixed64", "sfixed64", "double", "string", "bytes", "bytes"]
+
+/-- kinds with an arm in `UnmarshalRepeatedExtension` -/
+def unmarshalRepeatedExtensionKinds : List String := ["bool", "int32", "int64", "uint32", "uint64", "sint32", "sint64", "enum", "fixed32", "sfixed32", "float", "fixed64", "sfixed64", "double", "string", "bytes", "message", "bytes"]
+
+/-- (extension snippet, it has an arm of its own for a repeated extension that walks / appends to the slice) -/
+def extensionRepeatedArms : List (String × Bool) := [("SizeOfExtension", true), ("MarshalExtension", true), ("UnmarshalExtension", true)]
+
+/-- `UnmarshalRepeatedExtension` loads the list held so far, appends (one value or a packed run) and stores it back -/
+def repeatedExtensionAppends : Bool := true
+
 /-- every `enc.EncodeNested(` call site: (define, its error is assigned and tested) -/
-def encodeNestedSites : List (String × Bool) := [("MarshalMapEntry", true), ("MarshalMessage", true), ("MarshalMessage", true), ("MarshalMessage", true), ("MarshalOneOf", true), ("MarshalExtension", true)]
+def encodeNestedSites : List (String × Bool) := [("MarshalMapEntry", true), ("MarshalMessage", true), ("MarshalMessage", true), ("MarshalMessage", true), ("MarshalOneOf", true), ("MarshalExtension", true), ("MarshalExtension", true)]
 
 /-- every `DecodeBytes` use of the snippets: (define, copied | subdecoder | aliased) -/
-def decodeBytesSites : List (String × String) := [("UnmarshalBytes", "copied"), ("UnmarshalMapEntry", "subdecoder"), ("UnmarshalMapEntry", "copied"), ("UnmarshalOneOf", "copied"), ("UnmarshalExtension", "copied")]
+def decodeBytesSites : List (String × String) := [("UnmarshalBytes", "copied"), ("UnmarshalMapEntry", "subdecoder"), ("UnmarshalMapEntry", "copied"), ("UnmarshalOneOf", "copied"), ("UnmarshalRepeatedExtension", "copied"), ("UnmarshalExtension", "copied")]
 
 /-- mentions of the runtime's size-cache fields / sync/atomic in the two file templates -/
 def sizeCacheMentions : Nat := 0
